@@ -1094,18 +1094,23 @@ def fam_cond_two_plain():
         for ky in ("repeat1", "repeat2", "never"):
             for d in (0, 1):
                 for zat in range(d + 1, 3):
-                    for order in ("xy", "yx"):
+                    for order in ("xy", "yx", "xy-re", "yx-re"):
+                        # -re: the top frame restarts its own outline (`go f0`, evaluated before the conditional clauses)
+                        # while a conditional auxiliary runs: the forced re-entry exits it, so the frames below d are
+                        # no longer suspended and z must run from the next tick on
                         frames = []
                         for i, nm in enumerate(names):
                             items = recs(nm, ctxs)
+                            if i == 0 and order.endswith("-re"):
+                                items.append(("go", "f0", [E0, E1]))
                             if i == d:
                                 here = [("auxif", "x", [E0]), ("auxif", "y", [E1])]
-                                if order == "yx":
+                                if order.startswith("yx"):
                                     here.reverse()
                                 items += here
                             if i == zat:
                                 items.append(("aux", "z"))
-                            if i == 0:
+                            if i == 0 and not order.endswith("-re"):
                                 items.append(("go", "f3", [E0, E1]))
                             if i == 3:
                                 items.append(("go", "f0", [E1]))
@@ -1125,12 +1130,13 @@ def fam_clone_shapes():
         for first in (None, "d"):
             for nxt in (None, "a"):
                 init = [("put", "enter", 0, "nb of framer"), ("put", "enter", 0, "nc of framer")]
-                a = dict(name="a", items=recs("a", ctxs) + init + [("put", "enter", 1, "seen of framer"), ("go", "next", [E0])])
+                # every action context in the moot's frames: a clone must copy each act list into the same context
+                a = dict(name="a", items=recs("a", ALLCTX) + init + [("put", "enter", 1, "seen of framer"), ("go", "next", [E0])])
                 if under:
                     a["under"] = under
-                b = dict(name="b", over="a", items=recs("b", ctxs) + [("inc", "recur", "nb of framer", 1)])
-                c = dict(name="c", over="a", items=recs("c", ctxs) + [("inc", "recur", "nc of framer", 1)])
-                d = dict(name="d", items=recs("d", ctxs) + init + [("go", "next", [E1])])
+                b = dict(name="b", over="a", items=recs("b", ALLCTX) + [("inc", "recur", "nb of framer", 1)])
+                c = dict(name="c", over="a", items=recs("c", ALLCTX) + [("inc", "recur", "nc of framer", 1)])
+                d = dict(name="d", items=recs("d", ALLCTX) + init + [("go", "next", [E1])])
                 if nxt:
                     d["next"] = nxt
                 else:
@@ -1238,6 +1244,32 @@ def fam_clocks_rebid():
                         yield ("clocks-rebid/j%d/P%r/%s/T%r/%s" % (j, P, kind, T, decl),
                                dict(tick=tick, inits=[], framers=[boss, w] if decl == "bw" else [w, boss]),
                                dict(tick=tick, T=T, N=3, clocked=()))
+
+
+def fam_clocks_siblings():
+    """two (or three) plain auxiliaries on ONE frame: a pacer cycling on `repeat K` (a transition every K ticks) listed
+    before / after / around a counting auxiliary sitting in timeout T / repeat N frames: a sibling's transition is not
+    an outline change of the counting auxiliary, whose elapsed / recurred must be current at every evaluation."""
+    ctxs = ("enter", "exit")
+    for tick in (0.125, 0.1):
+        for K in (1, 2, 3):
+            for T in (tick, 3 * tick, 0.5):
+                for N in (1, 2, 5):
+                    def pacer(nm):
+                        return dict(name=nm, schedule="aux", frames=[
+                            dict(name=nm + "1", items=recs(nm + "1", ctxs) + [("repeat", K)]),
+                            dict(name=nm + "2", next=nm + "1", items=recs(nm + "2", ctxs) + [("repeat", K)])])
+                    x = dict(name="x", schedule="aux", frames=[
+                        dict(name="a", items=recs("a", ctxs) + [("repeat", N)]),
+                        dict(name="b", items=recs("b", ctxs) + [("timeout", T)]),
+                        dict(name="c", next="a", items=recs("c", ctxs) + [("repeat", N + 1), ("timeout", 2 * T)])])
+                    for order in ("px", "xp", "pxq"):
+                        auxes = {"px": ["p", "x"], "xp": ["x", "p"], "pxq": ["p", "x", "q"]}[order]
+                        main = [dict(name="f0", items=recs("f0", ctxs) + [("aux", a) for a in auxes])]
+                        yield ("clocks-siblings/%r/K%d/T%r/N%d/%s" % (tick, K, T, N, order),
+                               dict(tick=tick, inits=[], framers=[dict(name="m", schedule="active", frames=main)] +
+                                    [x if a == "x" else pacer(a) for a in auxes]),
+                               dict(tick=tick, T=T, N=N, clocked=("x",)))
 
 
 def fam_cond_aux_three():
